@@ -5,19 +5,24 @@ from vlib.diff import Case, differential
 
 LEVEL = "proof"
 # C functions this check's models mirror (source-text fingerprints are recorded in the evidence, see translate/funchash.py)
-MODELLED_FUNCS = {'src/utils/iwhmap.c': ['iwhmap_put', 'iwhmap_get', 'iwhmap_remove', 'iwhmap_clear', '_lru_entry_update', '_rehash'], 'src/utils/iwarr.c': ['iwulist_insert', 'iwulist_remove', 'iwulist_clone', 'iwlist_unshift', 'iwlist_clone', 'iwarr_sorted_insert', 'iwarr_sorted_remove'], 'src/utils/iwavl.h': ['iwavl_insert', 'iwavl_lookup_bounds'], 'src/utils/iwavl.c': ['iwavl_remove'], 'src/utils/iwrb.c': ['iwrb_put'], 'src/utils/iwxstr.c': ['iwxstr_cat', 'iwxstr_unshift', 'iwxstr_insert', 'iwxstr_printf_va'], 'src/utils/iwpool.c': ['iwpool_alloc', 'iwpool_split_string', 'iwpool_destroy']}
+MODELLED_FUNCS = {'src/utils/iwhmap.c': ['iwhmap_put', 'iwhmap_get', 'iwhmap_remove', 'iwhmap_clear', '_lru_entry_update', '_rehash'], 'src/utils/iwarr.c': ['iwulist_insert', 'iwulist_remove', 'iwulist_clone', 'iwlist_unshift', 'iwlist_clone', 'iwarr_sorted_insert', 'iwarr_sorted_remove'], 'src/utils/iwavl.h': ['iwavl_insert', 'iwavl_lookup_bounds'], 'src/utils/iwavl.c': ['iwavl_remove'], 'src/utils/iwrb.c': ['iwrb_put', 'iwrb_back', 'iwrb_peek', 'iwrb_iter_init', 'iwrb_iter_prev'], 'src/utils/iwxstr.c': ['iwxstr_cat', 'iwxstr_unshift', 'iwxstr_shift', 'iwxstr_pop', 'iwxstr_insert', 'iwxstr_printf_va', 'iwxstr_insert_vaprintf'], 'src/utils/iwpool.c': ['iwpool_alloc', 'iwpool_split_string', 'iwpool_printf_split', 'iwpool_user_data_set', '_parent_remove_child', 'iwpool_destroy']}
 MANIFEST = dict(
     level="proof",
     text=("Lean 4 theorems over executable mechanism models of iwhmap (buckets, step growth, rehash up/down, LRU list and eviction "
           "loop), iwulist/iwlist (window arithmetic, growth/shrink, bounds-instrumented memmove), the sorted-array binary search, the "
-          "AVL tree (rotation cases of insert and remove, lookup_bounds) and the ring buffer: each refines its plain reference "
-          "(association list + recency list, List, sorted list, BST set, last-n) for all call sequences, with bucket/array bounds and "
-          "free-exactly-once as invariants; the models (plus iwxstr and iwpool models) are tied to the code by differential runs of "
+          "AVL tree (rotation cases of insert and remove, lookup_bounds), the ring buffer (put/back/clear with the iterator loop), iwxstr "
+          "statement by statement (buffer cells, memmove, terminator stores, the 1024-byte vsnprintf buffer switch of the print functions) and "
+          "iwpool (bump allocation, the split_string scan with its trimming loops, child pools and user data): each refines its plain reference "
+          "(association list + recency list, List, sorted permutation, BST set, two-list ring, byte list, List.splitOnP) for all call sequences, "
+          "with bucket/array/buffer bounds as invariants, and one global theorem freed_exactly_once (multiset of elements given to the free "
+          "callbacks = multiset of owned elements inserted and not handed back, over any history ending in destroy, for hash map, iwlist, xstr "
+          "and pool user data, child pools); the models are tied to the code by differential runs of "
           "random call sequences (colliding hashes, eviction, threshold crossings) against the compiled Lean definitions, an independent "
           "python reference as oracle, a logged free callback, a heap balance at destroy and ASan"),
     note=("trusted: Lean kernel, translator, harness/generator, gcc+ASan/UBSan; modelled not verified: the C control flow of the functions "
           "named; pointers are abstracted (keys/values are ids, the LRU list is a list of keys), allocation failure paths are not modelled; "
-          "iwxstr and iwpool are tied and oracle-checked but carry only small lemmas; the check models the tree with the C18 fix commits"),
+          "sort_r (libc qsort_r) and the formatting done by vsnprintf are not modelled: the sort result is pinned down by uniqueness of the sorted "
+          "permutation, the print functions are proved for every formatted output; strings contain no NUL; the check models the tree with the C18 fix commits"),
     technique="Lean 4 proof over executable model + differential correspondence (C harness vs compiled Lean driver) + python reference oracle")
 MODULE = "IwModel.Props.C18"
 THEOREMS = ["IwModel.C18." + n for n in (
@@ -27,6 +32,12 @@ THEOREMS = ["IwModel.C18." + n for n in (
     "ulist_step_refines", "ulist_refines_list", "ulist_clone_window", "plist_step_refines", "plist_handed_out",
     "sorted_find_iff", "sorted_insert_sorted", "sorted_remove_spec", "ring_last_n", "xstr_refines_bytes", "pool_alloc_bump",
     "avl_insert_refines", "avl_remove_refines", "avl_bst", "avl_balanced", "avl_lookup_iff", "avl_bounds_spec", "avl_refines_set",
+    # round 3 (c18rest): ring back/peek, sort, statement-level xstr incl. printf buffer switch, pool split / children, ownership
+    "ring_refines_ref", "ring_peek_newest", "ring_back_spec",
+    "ulist_sort_sorted_perm", "plist_sort_sorted_perm", "sort_result_unique",
+    "xstr_mem_refines", "xstr_mem_run", "xstr_printf_exact", "xstr_wrap_clone_spec",
+    "pool_split_reference", "pool_trim_rule", "pool_printf_exact", "pool_children_ownership",
+    "hmap_freed_exactly_once", "plist_freed_exactly_once", "freed_exactly_once",
 )]
 
 M32 = 0xffffffff
@@ -581,43 +592,86 @@ def case_av(r, big=False):
 
 # ---------------------------------------------------------------- ring buffer
 
+class RbRef:
+    """plain reference of the ring for put / back / clear (the two-list reference the Lean theorem `ring_refines_ref` uses,
+    written independently): `a` = cells before the cursor, newest first; `b` = cells from the cursor to the end of the
+    buffer (wrapped ring only).  `back` on a wrapped ring rotates (the newest element becomes the oldest), from cursor 1 the
+    ring reports empty."""
+
+    def __init__(self, ln):
+        self.ln, self.a, self.b, self.wrapped = ln, [], [], False
+
+    def put(self, x):
+        if self.wrapped and self.b:
+            self.a, self.b = [x] + self.a, self.b[:-1]
+        elif not self.wrapped and len(self.a) < self.ln:
+            self.a = [x] + self.a
+        else:
+            self.a, self.b, self.wrapped = [x], self.a[:-1], True
+
+    def back(self):
+        if not self.wrapped:
+            self.a = self.a[1:]
+        elif len(self.a) == 1:
+            self.a, self.b, self.wrapped = [], [], False
+        elif self.a:
+            self.a, self.b = self.a[1:], self.b + [self.a[0]]
+
+    def clear(self):
+        self.a, self.b, self.wrapped = [], [], False
+
+    def it(self):
+        return self.a + self.b
+
+    def peek(self):
+        return self.a[0] if self.a else None
+
+    def num(self):
+        return self.ln if self.wrapped else len(self.a)
+
+
 def case_rb(r, big=False):
     us, ln = r.choice([1, 2, 4, 8]), r.choice([1, 2, 3, 5, 8, 33])
     ops, exp = ["rb new %d %d" % (us, ln)], [("w", "ok")]
-    seq, wrapped, quirk = [], False, False
-    allow_back = r.random() < 0.5
+    ref = RbRef(ln)
+    allow_back = r.random() < 0.6
+    nback_wrapped = 0
+    burst = 0
     for i in range(r.choice([10, 40, 120]) if not big else 1000):
-        op = r.choice(["put"] * 6 + ["peek", "num", "iter", "iter"] + (["back"] * 2 if allow_back else []) + (["clear"] if r.random() < 0.2 else []))
+        if burst > 0:                      # runs of `back` walk the cursor of a wrapped ring down to cell 1 and beyond
+            op, burst = "back", burst - 1
+        else:
+            op = r.choice(["put"] * 6 + ["peek", "num", "iter", "iter"] + (["back"] * 2 if allow_back else []) + (["clear"] if r.random() < 0.1 else []))
+            if op == "back" and r.random() < 0.25:
+                burst = r.choice([1, 2, ln - 1, ln, ln + 1])
         if op == "put":
             v = bytes(r.randrange(256) for _ in range(us))
             ops.append("rb put " + H(v)), exp.append(("w", "put"))
-            seq.append(v)
-            if len(seq) > ln:
-                wrapped = True
-                seq = seq[-ln:]
+            ref.put(v)
         elif op == "back":
             ops.append("rb back"), exp.append(("w", "back"))
-            if wrapped:
-                quirk = True       # cursor-only `back` on a wrapped ring: outside the reference (see design notes)
-            elif seq:
-                seq.pop()
+            nback_wrapped += ref.wrapped
+            ref.back()
+            ops.append("rb iter"), exp.append(("w", ("iter " + " ".join(H(x) for x in ref.it())).strip()))
         elif op == "clear":
             ops.append("rb clear"), exp.append(("w", "clear"))
-            seq, wrapped, quirk = [], False, False
+            ref.clear()
         elif op == "peek":
-            ops.append("rb peek"), exp.append(None if quirk else ("w", "peek " + (H(seq[-1]) if seq else "nil")))
+            ops.append("rb peek"), exp.append(("w", "peek " + (H(ref.peek()) if ref.peek() is not None else "nil")))
         elif op == "num":
-            ops.append("rb num"), exp.append(None if quirk else ("w", "num %d" % len(seq)))
+            ops.append("rb num"), exp.append(("w", "num %d" % ref.num()))
         else:
-            ops.append("rb iter"), exp.append(None if quirk else ("w", ("iter " + " ".join(H(x) for x in reversed(seq))).strip()))
+            ops.append("rb iter"), exp.append(("w", ("iter " + " ".join(H(x) for x in ref.it())).strip()))
+    ops.append("rb peek"), exp.append(("w", "peek " + (H(ref.peek()) if ref.peek() is not None else "nil")))
+    ops.append("rb num"), exp.append(("w", "num %d" % ref.num()))
     ops.append("rb destroy"), exp.append(("w", "destroy leak=0"))
 
     def oracle(out, exp=exp, ops=ops):
         for i, (e, line) in enumerate(zip(exp, out)):
             if e is not None and line.strip() != e[1]:
-                return "ring buffer differs from last-n reference at op %d `%s`: got `%s`, reference `%s`" % (i, ops[i], line[:200], e[1][:200])
+                return "ring buffer differs from the put/back reference at op %d `%s`: got `%s`, reference `%s`" % (i, ops[i], line[:200], e[1][:200])
         return None
-    return Case("rb" + ("-back" if allow_back else ""), ops, oracle)
+    return Case("rb" + ("-back" if allow_back else "") + ("-wrappedback" if nback_wrapped else ""), ops, oracle)
 
 
 # ---------------------------------------------------------------- growable string
@@ -627,6 +681,7 @@ def case_xs(r, big=False):
     data = bytearray()
     ud = [None]
     term = [True]
+    boundary = set()
 
     def blob(mx=40):
         n = r.choice([0, 1, 2, 7, 15, 16, 17, r.randrange(mx), r.randrange(mx)])
@@ -662,10 +717,12 @@ def case_xs(r, big=False):
         elif op in ("printf", "iprintf"):
             s = blob() if r.random() < 0.8 else blob(2500)
             v = r.choice([0, -1, 7, 1 << 40, -(1 << 62)])
-            if r.random() < 0.3:
-                # formatted length right at the 1024-byte stack buffer of iwxstr_printf_va
-                tot = r.choice([1022, 1023, 1024, 1024, 1025, 1026])
+            if r.random() < 0.35:
+                # formatted length right at the 1024-byte stack buffer of iwxstr_printf_va / iwxstr_insert_vaprintf:
+                # 1023 = last length served from the stack buffer, 1024 = first one that needs the heap buffer
+                tot = r.choice([1022, 1023, 1023, 1024, 1024, 1025, 1025, 1026, 2047, 2048])
                 s = bytes(r.randrange(33, 127) for _ in range(tot - 1 - len(str(v))))
+                boundary.add(tot)
             f = s + b"|" + str(v).encode()
             if op == "printf":
                 ops.append("xs printf %s %d" % (H(s), v)), exp.append(("w", "printf 0"))
@@ -713,7 +770,7 @@ def case_xs(r, big=False):
             if not ok:
                 return "iwxstr differs from the reference byte string at op %d `%s`: got `%s`, reference %s" % (i, ops[i][:120], line[:200], str(e)[:200])
         return None
-    return Case("xs", ops, oracle)
+    return Case("xs" + "".join("-b%d" % t for t in sorted(boundary) if t in (1023, 1024, 1025)), ops, oracle)
 
 
 # ---------------------------------------------------------------- memory pool
@@ -765,7 +822,10 @@ def case_po(r, big=False):
         elif op in ("split", "psplit"):
             chars = bytes(r.sample([44, 58, 59, 124, 32], r.choice([1, 1, 2])))
             alpha = list(chars) + [97, 98, 99, 32, 32, 9] + ([10] if r.random() < 0.2 else [])
-            hay = bytes(r.choice(alpha) for _ in range(r.choice([0, 1, 2, 3, 5, 8, 13, 30])))
+            hay = bytes(r.choice(alpha) for _ in range(r.choice([0, 1, 1, 2, 3, 5, 8, 13, 30, 90])))
+            if r.random() < 0.15:            # blank tokens, separators at both ends, white space only
+                hay = r.choice([b" ", b"  ", bytes(chars[:1]), bytes(chars[:1]) * 2, b" " + bytes(chars[:1]) + b" ", b"a" + bytes(chars[:1]),
+                                bytes(chars[:1]) + b"a", b" a ", b"\t" + bytes(chars[:1]) + b" \n", b"a " + bytes(chars[:1]) + b" "])
             wsf = r.randrange(2)
             ops.append("po %s %s %s %d" % (op, H(hay), H(chars), wsf))
             exp.append(("w", (op + " " + " ".join(H(t) for t in py_split(hay, chars, wsf))).strip()))
@@ -872,6 +932,8 @@ def explore(ctx, h, drv, n, label, big=False):
         ctx.sample(dict(kind=c.kind, ops=c.ops[:6], nops=len(c.ops)))
     for c in cases:
         ctx.hist("ops:" + c.kind.split("-")[0], len(c.ops))
+        if c.kind.startswith(("rb", "xs", "po")):
+            ctx.hist("kind:" + c.kind)
     probs = differential(ctx, [h], [drv, "c18"] if drv else None, cases, timeout=900)
     for c in cases:
         for line in (c.impl or []):
@@ -901,7 +963,9 @@ def run(ctx):
                        "that cross the 64/128/256 bucket and the 32-cell list thresholds; lists with edits at both ends; AVL with sorted and "
                        "random insertions; ring, xstr, pool); every op line is checked against a python reference; distinct = distinct op text")
     ctx.assumptions += ["malloc/realloc never fail (failure paths of the containers are not exercised)",
-                        "iwrb_back on a wrapped ring and iwxstr_set_size beyond the current size are outside the reference (model-compared only / not generated)",
+                        "iwxstr_set_size beyond the current size is not generated (the new bytes are uninitialised)",
+                        "iwrb_create(usize, 0) is not generated (the first put overflows, documented quirk); ring length >= 1",
+                        "strings handed to iwpool_split_string / printf contain no NUL byte",
                         "hash map keys: cmp_fn(a,b)==0 iff the keys are equal; string keys contain no NUL"]
     ctx.translate()
     ok, drv_ok = ctx.prove(MODULE, THEOREMS)
